@@ -782,3 +782,209 @@ def make_history_contract(fam):
 
 for _fam in ALL_FAMS:
     make_history_contract(_fam)
+
+
+# =============================================================================== ScipyDistribution subclasses (C05, C11)
+SCIPY_SUB = {"weibull_min": ["c", "loc", "scale"], "norm": ["loc", "scale"], "exponweib": ["a", "c", "loc", "scale"]}
+SD = D + "ScipyDistribution"
+
+
+def scipy_sub_obj(name):
+    """instance of a user subclass `class X(ScipyDistribution): scipy_dist_name = <name>` before __init__"""
+    o = SObj(SD, {"scipy_dist_name": name}, owner="call")
+    o.handbuilt = False
+    return o
+
+
+def _sd_ctor_cases():
+    cases = []
+    for name, pars in SCIPY_SUB.items():
+        cases.append(dict(dist=name, mode="defaults"))
+        cases.append(dict(dist=name, mode="positional"))
+        for p in pars:
+            cases.append(dict(dist=name, mode="fixed", p=p, order="fixed_first"))
+            cases.append(dict(dist=name, mode="fixed", p=p, order="free_first"))
+        cases.append(dict(dist=name, mode="unknown_kw"))
+    return cases
+
+
+@contract(SD + ".__init__", ["C11", "C05", "C18"], _sd_ctor_cases(), name="ctor.ScipyDistribution")
+class ScipyCtor(Contract):
+    """parameters are scipy's (shapes..., loc, scale) with defaults 1 / loc 0; positional and keyword values are
+    stored; f_<name> fixes the parameter at that value whatever the keyword order; unknown keywords raise TypeError"""
+
+    def case_label(self, case):
+        return f"{case['dist']},{case['mode']}" + (f",{case['p']},{case['order']}" if case["mode"] == "fixed" else "")
+
+    def inputs(self, itp, case):
+        cx = itp.cx
+        self.obj = scipy_sub_obj(case["dist"])
+        pars = SCIPY_SUB[case["dist"]]
+        self.pars = pars
+        args, kw = [], {}
+        if case["mode"] == "positional":
+            self.vals = [real(cx, f"arg{i}") for i in range(len(pars))]
+            args = list(self.vals)
+        elif case["mode"] == "fixed":
+            self.free = real(cx, "free_value")
+            self.fix = real(cx, "fixed_value")
+            items = [("f_" + case["p"], self.fix), (case["p"], self.free)]
+            if case["order"] == "free_first":
+                items.reverse()
+            kw = dict(items)
+        elif case["mode"] == "unknown_kw":
+            kw = {"no_such_parameter": real(cx, "v")}
+        return [self.obj] + args, kw
+
+    def post(self, itp, case, inp, out):
+        cx = itp.cx
+        if case["mode"] == "unknown_kw":
+            cx.oblige("raises.TypeError.unknown_keyword", out.outcome == "raise" and out.exc == "TypeError", "raises")
+            return
+        if out.outcome != "return":
+            cx.oblige("post.returns", False, "post", f"raised {out.exc}: {out.msg}")
+            return
+        f = self.obj.fields
+        cx.oblige("post.param_names", f.get("_param_names") == self.pars, "post", "scipy's shapes followed by loc, scale")
+        for i, p in enumerate(self.pars):
+            got = f.get(p)
+            if case["mode"] == "defaults":
+                want = 0 if p == "loc" else 1
+                cx.oblige(f"post.default.{p}", got == want and f.get("f_" + p, "ABSENT") is None, "post")
+            elif case["mode"] == "positional":
+                cx.oblige(f"post.positional.{p}", got is self.vals[i], "post")
+            elif p == case["p"]:
+                cx.oblige(f"post.ctor.{p}", got is self.fix and f.get("f_" + p) is self.fix, "post", "a parameter declared fixed has the fixed value from construction on, whatever the keyword order")
+
+
+def _sd_method_cases():
+    out = []
+    for name, pars in SCIPY_SUB.items():
+        for meth in ("cdf", "icdf", "pdf"):
+            out.append(dict(dist=name, meth=meth, how="stored"))
+            out.append(dict(dist=name, meth=meth, how="positional"))
+            for p in pars:
+                out.append(dict(dist=name, meth=meth, how="kw", p=p))
+        out.append(dict(dist=name, meth="cdf", how="unknown_kw"))
+    return out
+
+
+@contract(None, ["C05", "C11"], _sd_method_cases(), name="post.ScipyDistribution.methods")
+class ScipyMethods(Contract):
+    """cdf/icdf/pdf of a ScipyDistribution subclass = scipy's function at the stored parameters, each explicit
+    positional / keyword value replacing exactly its own parameter (real constructor + real methods)"""
+
+    def case_label(self, case):
+        return f"{case['dist']}.{case['meth']},{case['how']}" + (f"={case['p']}" if case["how"] == "kw" else "")
+
+    def inputs(self, itp, case):
+        return [], {}
+
+    def body(self, itp, case, args, kwargs):
+        cx = itp.cx
+        pars = SCIPY_SUB[case["dist"]]
+        obj = scipy_sub_obj(case["dist"])
+        fv = make_fv_(itp, SD + ".__init__")
+        stored = [real(cx, f"stored_{p}") for p in pars]
+        itp.call_function(fv, [obj] + stored, {})
+        n = cx.sym("n", "int")
+        cx.assume(T.ge(n, 1))
+        x = sym_array(cx, "x", (n,))
+        eff = [s.t for s in stored]
+        a, k = [], {}
+        if case["how"] == "positional":
+            ex = [real(cx, f"ex_{p}") for p in pars]
+            a = list(ex)
+            eff = [e.t for e in ex]
+        elif case["how"] == "kw":
+            v = real(cx, "ex")
+            k = {case["p"]: v}
+            eff[pars.index(case["p"])] = v.t
+        elif case["how"] == "unknown_kw":
+            k = {"bogus": real(cx, "ex")}
+        obj.writes.clear()
+        r = itp.call_value(itp.get_attr(obj, case["meth"]), [x] + a, k)
+        return (r, x, eff, n, obj)
+
+    def post(self, itp, case, inp, out):
+        cx = itp.cx
+        if case["how"] == "unknown_kw":
+            cx.oblige("raises.ValueError.unknown_parameter", out.outcome == "raise" and out.exc == "ValueError", "raises")
+            return
+        if out.outcome != "return":
+            cx.oblige("post.returns", False, "post", f"raised {out.exc}: {out.msg}")
+            return
+        r, x, eff, n, obj = out.value
+        (kk,) = fresh_index(cx, (n,))
+        f = sp_fn(case["dist"], METHODS[case["meth"]], len(eff))
+        cx.oblige("post.value", T.eq(elem(r, (kk,)), f(T.zr(x.get((kk,))), *[T.zr(e) for e in eff])) if isinstance(r, SArr) else False, "post",
+                  "scipy's function at the effective parameters (explicit value replaces exactly its own parameter)")
+        cx.oblige("frame.method", not obj.writes, "frame", "evaluation does not change the distribution")
+
+
+def make_fv_(itp, q):
+    from vf.contract import make_fv
+    return make_fv(itp, q)
+
+
+def _sd_fit_cases():
+    out = []
+    for name, pars in SCIPY_SUB.items():
+        for pat in all_none_patterns(pars):
+            out.append(dict(dist=name, pattern=pat))
+    return out
+
+
+@contract(None, ["C11", "C12"], _sd_fit_cases(), name="fit_mle.ScipyDistribution")
+class ScipyFit(Contract):
+    """_fit_mle of a ScipyDistribution subclass: f<name> keywords scipy accepts, fixed parameters unchanged, free ones
+    taken from scipy's result in order, start values = current parameters; all fixed: nothing to do"""
+
+    def case_label(self, case):
+        pars = SCIPY_SUB[case["dist"]]
+        return f"{case['dist']},fixed=" + "".join("1" if case["pattern"][p] else "0" for p in pars)
+
+    def inputs(self, itp, case):
+        return [], {}
+
+    def body(self, itp, case, args, kwargs):
+        cx = itp.cx
+        pars = SCIPY_SUB[case["dist"]]
+        obj = scipy_sub_obj(case["dist"])
+        kw = {}
+        self.fx = {}
+        for p in pars:
+            if case["pattern"][p]:
+                v = real(cx, f"f_{p}")
+                kw["f_" + p] = v
+                self.fx[p] = v
+        itp.call_function(make_fv_(itp, SD + ".__init__"), [obj], kw)
+        n = cx.sym("n", "int")
+        cx.assume(T.ge(n, 2))
+        sample = sym_array(cx, "sample", (n,))
+        before = {p: obj.fields[p] for p in pars}
+        itp.call_value(itp.get_attr(obj, "_fit_mle"), [sample], {})
+        return (obj, before, sample)
+
+    def post(self, itp, case, inp, out):
+        cx = itp.cx
+        pars = SCIPY_SUB[case["dist"]]
+        if out.outcome != "return":
+            cx.oblige("post.fit_succeeds", False, "post", f"raised {out.exc}: {out.msg}")
+            return
+        obj, before, sample = out.value
+        calls = cx.ghost.get("fit_calls", [])
+        if all(case["pattern"].values()):
+            cx.oblige("post.nothing_to_fit", not calls, "post")
+        else:
+            ok = len(calls) == 1 and calls[0]["dist"] == case["dist"]
+            cx.oblige("post.fit_called_once", ok and calls[0]["data"] is sample, "post")
+            if ok:
+                res = calls[0]["result"]
+                for i, p in enumerate(pars):
+                    if p not in self.fx:
+                        cx.oblige(f"post.free_is_estimated.{p}", obj.fields[p] is res[i], "post", "free parameter = scipy's estimate of ITS slot")
+                        st = calls[0]["start"][i] if i < len(calls[0]["start"]) else calls[0]["kwargs"].get(p)
+                        cx.oblige(f"post.start.{p}", st is before[p], "post", "start value = current parameter")
+        for p in self.fx:
+            cx.oblige(f"post.fit_keeps_fixed.{p}", T.eq(term_of(obj.fields[p]), self.fx[p].t), "post", "fixed parameter unchanged by fitting")
